@@ -23,6 +23,7 @@ from __future__ import annotations
 
 import ast
 
+from ..astutil import first_stmt, last_stmt  # noqa: F401
 from ..astutil import (MUTATING_METHODS, ancestors, call_name, calls_in, guards_of,
                        names_in, norm, single_def_value, stmt_of, walk_no_nested)
 from ..cfg import CFG
@@ -82,7 +83,7 @@ def _catch_all_reraising_handler(stmt: ast.AST):
             catch_all = a.type is None or any(
                 norm(t).split('.')[-1] in ('BaseException', 'Exception')
                 for t in (a.type.elts if isinstance(a.type, ast.Tuple) else [a.type]))
-            last = a.body[-1] if a.body else None
+            last = last_stmt(a.body)
             reraises = isinstance(last, ast.Raise) and (
                 last.exc is None or (a.name and isinstance(last.exc, ast.Name) and last.exc.id == a.name))
             if catch_all and reraises:
